@@ -51,11 +51,25 @@ BATCH = 120  # modules per build in the module lane
 _FIXTURE_CACHE: dict[str, str] = {}
 
 
+GRAMMAR_BUILTINS_EXTRA = """
+class Exception(BaseException): pass
+class BaseExceptionGroup(BaseException, Generic[T]): ...
+class ExceptionGroup(BaseExceptionGroup[T], Exception): ...
+class classmethod: pass
+class staticmethod: pass
+property = object()
+def print(*a: object) -> None: ...
+"""
+
+
 def grammar_fixtures() -> dict[str, str]:
+    """builtins = the repo's fixtures/primitives.pyi plus the few symbols the grammar's forms need (the same
+    definitions the repo's exception/classmethod/property fixtures use); typing = fixtures/typing-full.pyi."""
     if not _FIXTURE_CACHE:
         for src, dst in (("fixtures/primitives.pyi", "builtins.pyi"), ("fixtures/typing-full.pyi", "typing.pyi")):
             with open(os.path.join(corpus.UNIT, src), encoding="utf-8") as f:
                 _FIXTURE_CACHE[dst] = f.read()
+        _FIXTURE_CACHE["builtins.pyi"] += GRAMMAR_BUILTINS_EXTRA
     return dict(_FIXTURE_CACHE)
 
 
@@ -125,7 +139,7 @@ def judge(prog: dict[str, Any], dres: dict[str, Any], nres: dict[str, Any], main
 def _crash_kind(c: str | None) -> str:
     if not c:
         return "no"
-    return re.sub(r"\d+", "N", c.split(" :: ")[0])[:100]
+    return re.sub(r"\d+", "N", c)[:160]
 
 
 # --------------------------------------------------------------------------- single lane (one program per build)
@@ -232,8 +246,11 @@ def build_modules(spec: dict[str, Any], root: str, native: bool) -> dict[str, An
     sources = [BuildSource("tmp/" + rel, rel[:-3], None) for rel in spec["modules"]]
     blocker, crashed = False, None
     serr = io.StringIO()
+    sout = io.StringIO()
+    real = (sys.stdout, sys.stderr)
+    sys.stdout, sys.stderr = sout, serr
     try:
-        res = mb.build(sources=sources, options=options, alt_lib_path="tmp", stdout=io.StringIO(), stderr=serr)
+        res = mb.build(sources=sources, options=options, alt_lib_path="tmp", stdout=sout, stderr=serr)
         msgs = res.errors
     except CompileError as e:
         msgs, blocker = e.messages, True
@@ -241,8 +258,9 @@ def build_modules(spec: dict[str, Any], root: str, native: bool) -> dict[str, An
         msgs, crashed = [], f"SystemExit({e.code})"
     except BaseException as e:  # noqa: BLE001
         msgs, crashed = [], f"{type(e).__name__}: {str(e)[:200]}"
-    if crashed is None and "INTERNAL ERROR" in serr.getvalue():
-        crashed = "INTERNAL ERROR"
+    finally:
+        sys.stdout, sys.stderr = real
+    crashed = L.crash_of(crashed, sout.getvalue(), serr.getvalue())
     return {"messages": list(msgs), "blocker": blocker, "crashed": crashed}
 
 
@@ -262,10 +280,11 @@ def _module_round(progs: list[tuple[str, str]], meta: dict[str, Any], root: str,
         _account(out, prog, found, st, r["res"], "single")
         return
     names = [f"m{i:05d}.py" for i in range(len(progs))]
-    files = dict(grammar_fixtures())
+    files = dict(meta.get("fixtures") or grammar_fixtures())
     for n, (_pid, text) in zip(names, progs):
         files[n] = text
-    spec = {"files": files, "modules": names, "flags": meta["flags"], "pyver": meta["pyver"], "file": "", "name": ""}
+    spec = {"files": files, "modules": names, "flags": meta["flags"], "pyver": meta["pyver"],
+            "file": meta.get("file", ""), "name": meta.get("name", "")}
     L.materialize(spec, root)
     res = {}
     for native in (False, True):
@@ -300,6 +319,12 @@ def _module_round(progs: list[tuple[str, str]], meta: dict[str, Any], root: str,
 
 
 def _text_prog(pid: str, text: str, meta: dict[str, Any]) -> dict[str, Any]:
+    """The program alone, as testcheck would run it (text lane).  meta["case"] set: a corrupted corpus case (its own
+    fixtures and flags), else a grammar program."""
+    if meta.get("case"):
+        return {"id": meta["case"], "main": text, "files": dict(meta["fixtures"]), "flags": list(meta["flags"]),
+                "pyver": tuple(meta["pyver"]), "file": meta.get("file", ""), "name": meta.get("name", ""), "tags": [],
+                "kind": "corpus", "corrupted": pid}
     return {"id": pid, "main": text, "files": grammar_fixtures(), "flags": list(meta["flags"]), "pyver": tuple(meta["pyver"]),
             "file": "", "name": "", "tags": [], "kind": "text"}
 
@@ -537,14 +562,25 @@ class Agg:
 # --------------------------------------------------------------------------- run
 
 
-def run(ctx: Ctx) -> Result:
+def _cpu() -> float:
+    t = os.times()
+    return t.user + t.system + t.children_user + t.children_system
+
+
+def run(ctx: Ctx, phases: tuple[str, ...] = ("corpus", "grammar", "corrupt"), families: tuple[str, ...] | None = None) -> Result:
+    """`phases` / `families` (grammar id prefixes) restrict the run for detection demonstrations only; a restricted
+    run reports exhaustive=False and skips the vacuity gates that need the left-out phases."""
     L.preload()
     cov: dict[str, Any] = {}
     agg = Agg()
     t0 = time.time()
+    c0 = _cpu()
+    cpu_by_phase: dict[str, float] = {}
 
     # ---- (a) corpus
     cprogs, usable = corpus_programs(ctx, cov)
+    if "corpus" not in phases:
+        cprogs = []
     cprogs.sort(key=lambda p: (-len(p["main"]), p["id"], p["pyver"]))  # long first for pool balance
     items = [{"progs": list(ch), "projection": True} for ch in chunked(cprogs, 12)]
     for _i, _it, st, val in pmap(single_batch, items, fresh=False, timeout=3600):
@@ -552,10 +588,13 @@ def run(ctx: Ctx) -> Result:
             agg.herr.append(f"corpus batch failed: {val}")
             continue
         agg.take(val, "corpus")
-    log(f"C14 corpus: {len(cprogs)} program x version pairs, {time.time() - t0:.0f}s")
+    cpu_by_phase["corpus"] = round(_cpu() - c0, 1)
+    log(f"C14 corpus: {len(cprogs)} program x version pairs, wall {time.time() - t0:.0f}s cpu {_cpu() - c0:.0f}s")
 
     # ---- (b) grammar
     gprogs, d1 = grammar_programs(ctx, cov)
+    if families is not None:
+        gprogs = [(pid, t) for pid, t in gprogs if pid.split(":")[0] in families]
     meta = {"pyver": GRAMMAR_PYVER, "flags": GRAMMAR_FLAGS}
     items = [{"progs": list(ch), **meta} for ch in chunked(gprogs, BATCH)]
     # the version axis: quick = depth-1, type and pattern-free programs (they carry all the version-gated syntax) at
@@ -569,13 +608,16 @@ def run(ctx: Ctx) -> Result:
         sel = small if ctx.quick else (big if pv in ((3, 10), (3, 14)) else medium)
         items += [{"progs": [(f"{pid}@3.{pv[1]}", t) for pid, t in ch], "pyver": pv, "flags": GRAMMAR_FLAGS} for ch in chunked(sel, BATCH)]
         cov.setdefault("grammar_programs_other_versions", {})[f"3.{pv[1]}"] = len(sel)
+    if "grammar" not in phases:
+        items = []
     n_grammar = sum(len(it["progs"]) for it in items)
     for _i, _it, st, val in pmap(module_batch, items, fresh=False, timeout=3600):
         if st != "ok":
             agg.herr.append(f"grammar batch failed: {val}")
             continue
         agg.take(val, "grammar")
-    log(f"C14 grammar: {n_grammar} programs, {time.time() - t0:.0f}s")
+    cpu_by_phase["grammar"] = round(_cpu() - c0 - sum(cpu_by_phase.values()), 1)
+    log(f"C14 grammar: {n_grammar} programs, wall {time.time() - t0:.0f}s cpu {_cpu() - c0:.0f}s")
 
     # ---- (c) corruptions: parse-entry lane
     bases: list[tuple[str, str, int, dict | None]] = [(pid, t, len(G.PRELUDE), None) for pid, t in d1]
@@ -584,6 +626,8 @@ def run(ctx: Ctx) -> Result:
     ccases = [c for c in usable if not c.files and "no_native_parse" not in c.tags and len(c.main) < 1500]
     ccases = sorted(ccases, key=lambda c: (len(c.main), c.id))
     ccases = ccases[: (Q_CORRUPT_CASES if ctx.quick else T_CORRUPT_CASES)]
+    if "corrupt" not in phases:
+        bases, ccases = [], []
     texts: dict[str, str] = {}
     known_texts = {t for _p, t in gprogs}
     n_corr = 0
@@ -637,7 +681,8 @@ def run(ctx: Ctx) -> Result:
             accept_c.setdefault(it["case"], []).extend((pid, text_of[pid]) for pid in val["accept"])
         else:
             accept_g.extend((pid, text_of[pid]) for pid in val["accept"])
-    log(f"C14 corruptions parse-entry: {agg.stats['parse_pairs']} pairs, {time.time() - t0:.0f}s")
+    cpu_by_phase["corrupt-parse"] = round(_cpu() - c0 - sum(cpu_by_phase.values()), 1)
+    log(f"C14 corruptions parse-entry: {agg.stats['parse_pairs']} pairs, wall {time.time() - t0:.0f}s cpu {_cpu() - c0:.0f}s")
 
     # ---- (c) corruptions both parsers accept: build lanes
     accept_g.sort(key=lambda x: x[0])
@@ -647,22 +692,24 @@ def run(ctx: Ctx) -> Result:
             agg.herr.append(f"corruption module batch failed: {val}")
             continue
         agg.take(val, "corrupt-build")
-    sprogs = []
+    items = []
+    n_cc = 0
     for cid in sorted(accept_c):
         c = case_by_id[cid]
         pv = implied_version(c)
         pv = pv if pv <= L.running_pyversion() else L.running_pyversion()
-        for pid, t in sorted(accept_c[cid]):
-            p = L.program_of(c, pv)
-            p.update({"id": cid, "main": t, "kind": "corpus", "corrupted": pid})
-            sprogs.append(p)
-    items = [{"progs": list(ch)} for ch in chunked(sprogs, 12)]
-    for _i, _it, st, val in pmap(single_batch, items, fresh=False, timeout=3600):
+        base = L.program_of(c, pv)
+        cmeta = {"pyver": pv, "flags": base["flags"], "fixtures": base["files"], "case": cid, "file": c.file, "name": c.name}
+        acc = sorted(accept_c[cid])
+        n_cc += len(acc)
+        items += [{"progs": list(ch), **cmeta} for ch in chunked(acc, BATCH)]
+    for _i, _it, st, val in pmap(module_batch, items, fresh=False, timeout=3600):
         if st != "ok":
-            agg.herr.append(f"corruption single batch failed: {val}")
+            agg.herr.append(f"corpus corruption module batch failed: {val}")
             continue
         agg.take(val, "corrupt-build")
-    log(f"C14 corruptions build lane: {len(accept_g)} + {len(sprogs)} programs, {time.time() - t0:.0f}s")
+    cpu_by_phase["corrupt-build"] = round(_cpu() - c0 - sum(cpu_by_phase.values()), 1)
+    log(f"C14 corruptions build lane: {len(accept_g)} + {n_cc} programs, wall {time.time() - t0:.0f}s cpu {_cpu() - c0:.0f}s")
 
     # ---- confirmation: every signature seen only in the module lane / parse-entry lane is re-run ALONE
     # through real builds (smallest KEEP_PER_SIG examples); the reported example is a confirmed one.
@@ -701,7 +748,8 @@ def run(ctx: Ctx) -> Result:
             hits = [f for f in val["findings"] if f["sig"] == t["sig"] and f["replay"]["id"] == pid
                     and f["replay"].get("main", None) in (t["prog"]["main"], None)]
             (confirmed if hits else unconfirmed).setdefault(t["sig"], []).extend(hits or [t])
-    log(f"C14 confirmations: {len(todo)} programs, {time.time() - t0:.0f}s")
+    cpu_by_phase["confirm"] = round(_cpu() - c0 - sum(cpu_by_phase.values()), 1)
+    log(f"C14 confirmations: {len(todo)} programs, wall {time.time() - t0:.0f}s cpu {_cpu() - c0:.0f}s")
 
     # ---- violations, simplest first per signature
     all_sigs = set(agg.sig_counts) | set(parse_counts)
@@ -750,22 +798,26 @@ def run(ctx: Ctx) -> Result:
         "projection_selfcheck": {"programs": agg.projection[0], "mismatches": agg.projection[1]},
         "signatures": {k: per_sig[k] for k in sorted(per_sig)},
         "versions": [f"3.{v[1]}" for v in VERSIONS], "grammar_version": f"3.{GRAMMAR_PYVER[1]}",
-        "exhaustive": not agg.herr,
+        "exhaustive": not agg.herr and set(phases) >= {"corpus", "grammar", "corrupt"} and families is None,
+        "cpu_seconds_by_phase": cpu_by_phase, "cpu_seconds_total": round(_cpu() - c0, 1),
         "samples": agg.samples[:8],
         "bounds": "corpus: every usable case of the listed files x listed versions; grammar: every form x hole x form "
                   "(quick: one variant, thorough: bare/paren/probe variants); corruptions: every token of every "
                   "depth-1 program (thorough: + type and pattern programs) and of the smallest corpus cases",
     })
     vac = []
-    if s["pairs"] < 1000:
+    full = set(phases) >= {"corpus", "grammar", "corrupt"} and families is None
+    if not full:
+        pass
+    elif s["pairs"] < 1000:
         vac.append("fewer than 1000 build pairs")
-    if len(agg.kinds) < 30:
+    if full and len(agg.kinds) < 30:
         vac.append("fewer than 30 distinct message kinds")
-    if s["located"] < 1000 or s["with_end"] < 1000:
+    if full and (s["located"] < 1000 or s["with_end"] < 1000):
         vac.append("hardly any diagnostic carried a column / end")
-    if s["parse:both-reject"] < 100 or s["parse:both-accept"] < 100:
+    if full and (s["parse:both-reject"] < 100 or s["parse:both-accept"] < 100):
         vac.append("corruptions did not produce both rejected and accepted programs")
-    if agg.projection[0] < 20:
+    if full and agg.projection[0] < 20:
         vac.append("projection self-check not exercised")
     if agg.projection[1]:
         vac.append("strength-1 projection differs from a real default-format build")
